@@ -97,6 +97,29 @@ def extra_cfgs(tier):
             EqualConstant(s, 'eq', a, v, r)
             return {'a': a}, {'r': r}
         add('EqualConstant w%d constant %d (outside the operand range or wider than 32 bits)' % (w, v), b, 'comb')
+    # gates whose result wire is wider / narrower than the operands (IEEE 1364 sizes the operands to the target
+    # before inverting, so the upper result bits of an inverting gate are 1)
+    for aw, rw in ((4, 8), (2, 3), (1, 3), (4, 2), (8, 4), (3, 33)):
+        def b(s, aw=aw, rw=rw):
+            a, r = W(s, 'a', aw), W(s, 'r', rw)
+            Not(s, 'g', a, r)
+            return {'a': a}, {'r': r}
+        add('Not a%d r%d (result width differs from the operand)' % (aw, rw), b, 'comb')
+    for cls in (Nand2, Nor2, Xor2):
+        for aw, bw, rw in ((4, 4, 8), (2, 4, 6), (4, 2, 3), (1, 1, 2), (4, 4, 2)):
+            def b(s, cls=cls, aw=aw, bw=bw, rw=rw):
+                a, c, r = W(s, 'a', aw), W(s, 'b', bw), W(s, 'r', rw)
+                cls(s, 'g', a, c, r)
+                return {'a': a, 'b': c}, {'r': r}
+            add('%s a%d b%d r%d (mixed widths)' % (cls.__name__, aw, bw, rw), b, 'comb')
+    for cls in (Nor, And, Or, Xor):
+        for ws_, rw in (((2, 2), 4), ((3, 3, 3), 5), ((2, 4), 4), ((4, 4), 2)):
+            def b(s, cls=cls, ws_=ws_, rw=rw):
+                ins = {'i%d' % k: W(s, 'i%d' % k, w) for k, w in enumerate(ws_)}
+                r = W(s, 'r', rw)
+                cls(s, 'g', list(ins.values()), r)
+                return ins, {'r': r}
+            add('%s inputs %s r%d (mixed widths)' % (cls.__name__, ws_, rw), b, 'comb')
     # hand-written bodies: memories, message sequencer
     for aw, dw in ((1, 2), (2, 4)):
         def b(s, aw=aw, dw=dw):
